@@ -36,6 +36,21 @@ CHECKS = {
  "C19": ("exploration", "trace validation (no Crash action in the specification) over corpus x configurations", "6 C19",
    "Every traced run must end in Finish or in a located rejection; any exception out of analyze/fix/report is a deviation (C19_NoCrash).", FIX_NOTE),
 }
+CHK_NOTE = ("Trusted: TLC/SANY, the ground-truth hook (violations standing on the rule objects after check_rules), the artefact parsers of harness/chkrun.py. "
+            "Inputs are a seeded stratified sample of the fixture corpus; rule analyses themselves are covered on the explored files only.")
+CHECKS.update({
+ "C06": ("exploration", "trace validation against CheckTrace.tla (repeat / permuted order / disabled subsets / attribute digests)", "6 C06",
+   "Relational check with the specification as the oracle: per file an all-phases check, the same check repeated on the same objects, with the rule list permuted, and with seeded subsets of rules disabled; "
+   "TLC checks equality of the violation sets (modulo the documented later-sub-phase dependence) and that no analysis changed any token attribute.", CHK_NOTE),
+ "C13": ("model_checking", "TLC on CheckReport.tla (+mutant) and CheckTrace.tla executing the spec's Check on recorded per-rule violations", "6 C13",
+   "Design: gated report = prefix of the all-phases report for every small rule table / violation assignment / skip set (884k cases; stop-inside-subphase mutant fails). "
+   "Binding: per (file, configuration incl. phase and severity re-assignments) TLC executes Check on the violations of an --all_phases run and compares with what each (ap, skip) run reported, its last phase, rules-ran count and status; "
+   "--fix_phase N is compared with disabling phases > N; C13_FixPhase / C13_PhaseOrder on every fix trace.", CHK_NOTE),
+ "C14": ("model_checking", "trace validation against CheckTrace.tla (formats as projections of one violation set)", "6 C14",
+   "main() is run per (files incl. rejected / mis-configured, output format, severity configuration incl. user-defined severities) with --json --junit --quality_report; every artefact is parsed back and TLC compares it with the projection of the ground-truth set, the printed counts and the exit status.", CHK_NOTE),
+ "C20": ("model_checking", "trace validation against CheckTrace.tla and FixTrace.tla (C20_OnlyListed)", "6 C20",
+   "Per file: --fix_only with nothing / every rule: all / one rule / one rule with a subset of its lines / two rules; TLC checks all==plain fix, none==untouched, only listed rules and lines fix, listed lines of a line-local rule are exactly the lines that change.", CHK_NOTE),
+})
 checks = []
 for pid in ids:
     if pid not in CHECKS:
